@@ -444,6 +444,9 @@ func main() {
 			vprobe.Log(vprobe.Event{Ev: "bad-request", Eng: eng, Rid: rid, Detail: err.Error()})
 			return
 		}
+		if body == nil {
+			req.Body = http.NoBody // what a server-side request always carries
+		}
 		if body != nil {
 			if eng == "fiber" {
 				req.Body = io.NopCloser(body)
